@@ -68,6 +68,30 @@ def _py_dists_to(n, edges, targets):
     return d
 
 
+def _py_dijkstra(n, edges, s, targets):
+    """generator-side helper (not a judge): (least distance from s to the target set or None, number of nodes
+    closed by a heap Dijkstra with (cost, counter) keys up to and including the first goal)"""
+    import heapq
+    adj = [[] for _ in range(n)]
+    for u, v, w in edges:
+        adj[u].append((v, w))
+    g, closed, heap, cnt, pops = {s: 0}, set(), [(0, 0, s)], 1, 0
+    while heap:
+        c, _, u = heapq.heappop(heap)
+        if u in closed:
+            continue
+        closed.add(u)
+        pops += 1
+        if u in targets:
+            return c, pops
+        for v, w in adj[u]:
+            if v not in closed and c + w < g.get(v, float("inf")):
+                g[v] = c + w
+                heapq.heappush(heap, (c + w, cnt, v))
+                cnt += 1
+    return None, pops
+
+
 def gen_graph(rng, big: bool):
     nmax = 12 if big else 9
     n = rng.choice([1, 2, 3, 3, 4, 4, 5, 5, 6, 6, 7, 8, nmax])
@@ -131,6 +155,19 @@ def gen_graph(rng, big: bool):
     if rng.random() < 0.3:
         max_cost = rng.randint(0, 14 * scale)
     nonneg = all(e[2] >= 0 for e in edges)
+    if nonneg and goal["mode"] != "none" and rng.random() < 0.22:  # BOUNDARY values of the optional limits
+        dtrue, pops = _py_dijkstra(n, edges, s, goal["set"])
+        r2 = rng.random()
+        if r2 < 0.55:
+            base = dtrue if dtrue is not None else rng.randint(0, 9 * scale)
+            max_cost = max(0, rng.choice([0, 0, base, base, base - 1, base + 1, base - scale, base + scale]))
+            max_iter = max_iter if rng.random() < 0.3 else None
+        else:
+            max_iter = max(0, rng.choice([0, 1, pops, pops, pops - 1, pops + 1]))
+            max_cost = max_cost if rng.random() < 0.3 else None
+        if rng.random() < 0.12:
+            goal = {"mode": "value", "set": [s]}
+            max_cost = 0
     hk = rng.choice(["zero", "exact", "exact", "half", "cap", "cap", "bad"]) if rng.random() < 0.9 else "bad"
     hv = [0] * n
     if nonneg and goal["mode"] != "none":
@@ -352,6 +389,15 @@ def edge_cases():
          "h": {"kind": "zero", "vals": [0, 0, 0, 0]}, "aw": [1, 1], "bf_target": 3, "fw_directed": True}
     yield g
     yield {**g, "max_cost": 7}
+    yield {**g, "max_cost": 0}
+    yield {**g, "max_cost": 0, "labels": "int"}
+    yield {**g, "max_cost": 0, "goal": {"mode": "value", "set": [0]}}
+    yield {**g, "max_cost": 6}
+    yield {**g, "max_cost": 8}
+    yield {**g, "max_iter": 0}
+    yield {**g, "max_iter": 1}
+    yield {**g, "max_iter": 3}
+    yield {**g, "max_iter": 4}
     yield {**g, "max_cost": 6, "goal": {"mode": "pred", "set": [2, 3]}}
     yield {**g, "n": 1, "edges": [], "goal": {"mode": "value", "set": [0]}, "h": {"kind": "zero", "vals": [0]},
            "bf_target": 0}
@@ -711,6 +757,10 @@ def check_found(j, fn, o, chk, optimal: bool, max_cost=None, scale=1, unit=False
         else:
             j.fail(fn, "path_endpoints", f"returned path {o['sol']} does not start at the source / end at a goal")
         return False
+    if max_cost is not None and cost is not None and cost > max_cost:
+        j.fail(fn, "returned_beyond_max_cost", f"a goal at distance {o['obj']} was returned although max_cost is "
+               f"{max_cost}/{scale}: a goal beyond max_cost is INFEASIBLE")
+        return False
     if optimal and not dc:
         beyond = max_cost is not None and cost is not None and cost > max_cost
         j.fail(fn, "dist_not_shortest" + (":beyond_max_cost" if beyond else ""),
@@ -749,8 +799,7 @@ def judge_search(j, fn, o, m, chk, ok_status, optimal, n, max_iter, max_cost, sc
     # the (repaired) mirror; an exact answer there is accepted by R_prop and not a trace divergence.
     mv = {"status": m[0], "sol": m[1]}
     iv = {"status": st, "sol": o["sol"]}
-    beyond = max_cost is not None and st == ok_status and (scaled(o["obj"], scale) or 0) > max_cost
-    if iv != mv and not beyond:
+    if iv != mv:
         j.tdiv(fn, iv, mv)
     elif iv == mv:
         ctx.count("r_trace_agree")
@@ -1015,14 +1064,13 @@ def judge_graph(ctx, case, out, reply, keys):
                 j.fail("astar", "raises:" + o["err"], f"valid input raised {o['err']}")
             else:
                 if o["status"] == okst and o["sol"] is not None:
-                    check_found(j, "astar", o, R["c:astar"], False, None, sc, False)
+                    check_found(j, "astar", o, R["c:astar"], False, case["max_cost"], sc, False)
                 elif o["status"] == "INFEASIBLE" and case["max_cost"] is None and not R["c:astar"][3]:
                     j.fail("astar", "false_infeasible", "INFEASIBLE although a goal node is reachable")
                 elif o["status"] not in ("INFEASIBLE", "MAX_ITER", okst):
                     j.fail("astar", "bad_status", f"unexpected status {o['status']}")
                 iv, mv = {"status": o["status"], "sol": o["sol"]}, {"status": ma[0], "sol": ma[1]}
-                beyond = case["max_cost"] is not None and o["status"] == okst
-                if iv != mv and not beyond:
+                if iv != mv:
                     j.tdiv("astar", iv, mv)
     if nonneg:
         o, m = out["dijkstra_edges"], R["m:dijkstra_edges"]
